@@ -47,6 +47,48 @@ type traceLine struct {
 	Ato        bool       `json:"ato"` // per-attempt timeouts were possible while the caller waited
 }
 
+// fetchCase is a group of CASE records of spec/getter/BitswapFetch.tla with the same calls / offers.
+type fetchCase struct {
+	Calls  int `json:"calls"`
+	Blocks int `json:"blocks"`
+	Offers [][]struct {
+		K string `json:"k"`
+		E int    `json:"e"`
+	} `json:"offers"`
+	Allowed [][]string `json:"allowed"`
+}
+
+func fromFetchModel(i int, m fetchCase) Case {
+	types := []string{"row", "range", "samples"}
+	if m.Blocks == 2 {
+		types = []string{"samples", "eds"}
+	}
+	c := Case{ID: fmt.Sprintf("f%d", i), Type: types[i%len(types)], Chain: []string{"bitswap"}, Overlap: m.Calls, W: 2,
+		BlockStore: []string{"datastore", "edsstore"}[i%2], Ctx: "deadline", CtxAt: "quiescent", FetchAllowed: m.Allowed}
+	staged := false
+	for b, offers := range m.Offers {
+		var first, all []string
+		for j, o := range offers {
+			k := o.K
+			if k == "bad" {
+				k = []string{"garble:0", "other:1"}[(i+b+j)%2]
+			}
+			if o.E < m.Calls {
+				first = append(first, k)
+				staged = true
+			} else {
+				all = append(all, k)
+			}
+		}
+		c.Bs1 = append(c.Bs1, first)
+		c.Bs = append(c.Bs, all)
+	}
+	if !staged {
+		c.Bs1 = nil
+	}
+	return c
+}
+
 func has(xs []string, x string) bool {
 	for _, y := range xs {
 		if y == x {
@@ -184,7 +226,56 @@ func seededCases(seed int64, n int) []Case {
 	return out
 }
 
+// overlapCases: one, two or three calls of the bitswap getter for the same identifiers at the same time, for
+// every request type and every block store: nothing is ever delivered (every call must fail, none may
+// come back empty-handed without an error), everything is delivered (every call must come back
+// complete), and bad candidates first.
+func overlapCases(seed int64) []Case {
+	rng := seeded(seed, "overlap-cases")
+	var out []Case
+	n := 0
+	for _, typ := range []string{"samples", "row", "eds", "nd", "range"} {
+		for _, offers := range [][]string{{}, {"correct"}, {"garble:0", "correct"}, {"other:1", "correct"}, {"garble:0", "garble:0"}, {"other:1", "other:1"}} {
+			for _, k := range []int{1, 2, 3} {
+				n++
+				c := Case{ID: fmt.Sprintf("o%d", n), Type: typ, Chain: []string{"bitswap"}, Overlap: k, W: 2,
+					BlockStore: []string{"datastore", "edsstore", "edsstore-cached"}[rng.Intn(3)], Ctx: "deadline", CtxAt: "quiescent"}
+				items := 1
+				if typ == "samples" {
+					items = 1 + rng.Intn(2)
+				}
+				if typ == "eds" {
+					c.W = []int{1, 2}[rng.Intn(2)]
+					items = c.W
+				}
+				if typ == "nd" {
+					items = 2 // rows the namespace may touch; surplus scripts are ignored
+				}
+				for i := 0; i < items; i++ {
+					c.Bs = append(c.Bs, append([]string(nil), offers...))
+				}
+				out = append(out, c)
+			}
+		}
+	}
+	// a later call joins while the first one already holds some of its blocks and waits for the rest:
+	// the block the first call got is asked for again by the second one, and answered honestly or badly
+	for _, typ := range []string{"samples", "eds"} {
+		for _, second := range [][]string{{"correct"}, {"garble:0"}, {"other:1"}, {"garble:0", "correct"}} {
+			n++
+			c := Case{ID: fmt.Sprintf("o%d", n), Type: typ, Chain: []string{"bitswap"}, Overlap: 2, W: 2, BlockStore: "datastore",
+				Ctx: "deadline", CtxAt: "quiescent",
+				Bs1: [][]string{{"correct"}, {}}, Bs: [][]string{second, {}}}
+			out = append(out, c)
+		}
+	}
+	return out
+}
+
 func kindOfLabel(l string) string {
+	if i := strings.IndexByte(l, '@'); i >= 0 {
+		l = l[:i]
+	}
 	if i := strings.IndexByte(l, '/'); i >= 0 {
 		return l[:i]
 	}
@@ -273,6 +364,25 @@ func (d *driver) judge(c Case, o Outcome, keys []string) {
 				}
 			}
 		}
+	}
+}
+
+// judgeOverlap: what is demanded of a call that overlapped with another call for the same identifiers.
+// When every block was offered honestly, every one of the calls must come back complete.
+func (d *driver) judgeOverlap(c Case, o Outcome, k int) {
+	if o.Panic != "" || o.Hung {
+		return
+	}
+	allCorrect := len(c.Bs) > 0
+	for _, offers := range c.Bs {
+		if len(offers) == 0 || offers[len(offers)-1] != "correct" {
+			allCorrect = false
+		}
+	}
+	if allCorrect && !o.OK {
+		d.rep.Violate("C06/bitswap/"+c.Type+"/overlapping-call-starved",
+			fmt.Sprintf("call %d of %d overlapping calls was offered every block honestly and failed: %s", k+1, c.Overlap, o.Err),
+			map[string]any{"case": c, "outcome": o})
 	}
 }
 
@@ -381,6 +491,19 @@ func TestDriver(t *testing.T) {
 	sc := seededCases(d.seed, nSeeded)
 	rep.Count("cases_seeded", int64(len(sc)))
 	cases = append(cases, sc...)
+	if p := os.Getenv("VERIF_FETCH_CASES"); p != "" {
+		var fs []fetchCase
+		if err := vh.ReadJSON(p, &fs); err != nil {
+			t.Fatalf("fetch cases: %v", err)
+		}
+		for i, f := range fs {
+			cases = append(cases, fromFetchModel(i, f))
+		}
+		rep.Count("cases_from_fetch_model", int64(len(fs)))
+	}
+	oc := overlapCases(d.seed)
+	rep.Count("cases_overlap", int64(len(oc)))
+	cases = append(cases, oc...)
 
 	tracePath := filepath.Join(vh.WorkDir(), "getter_trace.ndjson")
 	tf, err := os.Create(tracePath)
@@ -414,6 +537,50 @@ func TestDriver(t *testing.T) {
 							aborted = true
 						}
 					}()
+					if c.Overlap >= 1 {
+						outs, _ := d.runOverlap(c)
+						if len(c.FetchAllowed) > 0 {
+							got := make([]string, len(outs))
+							clean := true
+							for k, ov := range outs {
+								got[k] = "err"
+								if ov.OK {
+									got[k] = "nil"
+								}
+								if ov.Panic != "" || ov.Hung {
+									clean = false
+								}
+								for _, it := range ov.Items {
+									if it == "bad" || (ov.OK && it != "good") {
+										clean = false // the oracle reports this one
+									}
+								}
+							}
+							match := false
+							for _, a := range c.FetchAllowed {
+								if strings.Join(a, ",") == strings.Join(got, ",") {
+									match = true
+								}
+							}
+							rep.Count("fetch_model_cases", 1)
+							if !match && clean {
+								b, _ := json.Marshal(c)
+								rep.Inconclusivef("conformance drift: overlapping bitswap calls returned %v, BitswapFetch.tla allows %v: %s", got, c.FetchAllowed, b)
+							}
+						}
+						for k, ov := range outs {
+							cc := c
+							cc.ID = fmt.Sprintf("%s/call%d", c.ID, k+1)
+							d.judge(cc, ov, nil)
+							d.judgeOverlap(cc, ov, k)
+							rep.Count("overlapping_calls", 1)
+							if ov.OK {
+								rep.Count("overlapping_calls_ok", 1)
+							}
+						}
+						aborted = true // judged here; no trace line (no counterpart in Getter.tla)
+						return
+					}
 					o, keys, ctxState = d.runCaseFull(c)
 				}()
 				if aborted {
